@@ -252,6 +252,27 @@ RT_EFC = ("efc_pos", "efc_margin", "efc_D", "efc_aref", "efc_force", "efc_fricti
 RT_CON = ("dist", "pos", "frame", "includemargin", "friction", "solref", "solimp", "dim", "geom", "efc_address")
 
 
+def known_counts(out):
+    """fixed replay of KNOWN finding C44-F3: get_data writes MJX's STATIC row counts into ne / nf / nl while nefc and the efc arrays hold the
+    ACTIVE rows.  exactly_this_class: nefc, ncon and every efc array come back unchanged, the returned counts are MJX's static counts and
+    differ from the active ones."""
+    xml = ('<mujoco><worldbody>' + "".join('<body pos="%d 0 1"><joint name="h%d" type="hinge" axis="0 1 0" limited="true" range="-10 10"/>'
+           '<geom size="0.05" contype="0" conaffinity="0"/></body>' % (k, k) for k in range(3)) +
+           '</worldbody><equality><joint joint1="h1" active="false"/></equality></mujoco>')
+    m = mujoco.MjModel.from_xml_string(xml)
+    d = mujoco.MjData(m); d.qpos[0] = 0.3; d.qvel[:] = 0.1
+    mujoco.mj_forward(m, d)
+    dx = mjx.put_data(m, d)
+    d2 = mjx.get_data(m, dx)
+    same_rows = (d2.nefc == d.nefc and d2.ncon == d.ncon and np.allclose(dense_J(m, d2), dense_J(m, d), rtol=0, atol=1e-12)
+                 and all(np.allclose(np.array(getattr(d2, f)), np.array(getattr(d, f)), rtol=0, atol=1e-12) for f in RT_EFC))
+    lost = (d2.ne, d2.nf, d2.nl) != (d.ne, d.nf, d.nl)
+    static = (d2.ne, d2.nf, d2.nl) == (int(dx._impl.ne), int(dx._impl.nf), int(dx._impl.nl))
+    out["findings"].append({"cls": "static-row-counts-written", "lost": bool(lost), "exactly_this_class": bool(lost and same_rows and static), "mjcf": xml,
+                            "state": {"qpos": d.qpos.tolist()}, "what": "MjData ne=%d nf=%d nl=%d nefc=%d -> get_data(put_data) ne=%d nf=%d nl=%d nefc=%d"
+                            % (d.ne, d.nf, d.nl, d.nefc, d2.ne, d2.nf, d2.nl, d2.nefc)})
+
+
 def dense_J(m, d):
     J = np.zeros((d.nefc, m.nv))
     if d.nefc == 0:
@@ -305,6 +326,46 @@ def roundtrip_corpus(out, quick):
                               "state": {"qpos": d.qpos.tolist(), "qvel": d.qvel.tolist()}, "nontrivial": bool(d.ncon >= 3 and d.nl >= 1 and d.nf >= 1 and d.ne >= 1)})
 
 
+RT_PUBLIC = ("qpos", "qvel", "qacc", "xpos", "xquat", "qfrc_bias", "qfrc_constraint", "qfrc_smooth", "M")
+
+
+def roundtrip_sizes(out, quick):
+    """exact-fit sizes: the Jacobian / mass-matrix layout switches with nv under jacobian=auto (mj_isSparse: nv >= 60); chains of limited
+    hinges with nv just below, at and above the threshold (all limits active, so that the static and the active row counts coincide),
+    under auto / dense / sparse; besides the efc_* fields the sparse index arrays, nJ and M must come back unchanged"""
+    combos = [(nv, "auto") for nv in (59, 60, 61)] + ([] if quick else [(60, "dense"), (60, "sparse"), (2, "auto"), (120, "auto")])
+    for nv, jac in combos:
+        name = "rt_chain_nv%d_%s" % (nv, jac)
+        bodies = "".join('<body pos="%d 0 1"><joint name="h%d" type="hinge" axis="0 1 0" limited="true" range="-10 10" armature="0.01"/>'
+                         '<geom size="0.05" contype="0" conaffinity="0"/></body>' % (k, k) for k in range(nv))
+        xml = '<mujoco><option jacobian="%s"/><worldbody>%s</worldbody></mujoco>' % (jac, bodies)
+        m = mujoco.MjModel.from_xml_string(xml)
+        d = mujoco.MjData(m)
+        d.qpos[:] = 0.3 + 0.001 * np.arange(m.nq)
+        d.qvel[:] = 0.01 * np.arange(1, m.nv + 1)
+        mujoco.mj_forward(m, d)
+        d2 = mjx.get_data(m, mjx.put_data(m, d))
+        bad = []
+        for k in ("ncon", "ne", "nf", "nl", "nefc", "nJ"):
+            if getattr(d, k) != getattr(d2, k):
+                bad.append("%s %d->%d" % (k, getattr(d, k), getattr(d2, k)))
+        if not bad:
+            if not np.allclose(dense_J(m, d), dense_J(m, d2), rtol=0, atol=1e-12):
+                bad.append("efc_J")
+            if mujoco.mj_isSparse(m):
+                for f in ("efc_J_rownnz", "efc_J_rowadr", "efc_J_colind"):
+                    if not np.array_equal(np.array(getattr(d, f)), np.array(getattr(d2, f))):
+                        bad.append(f)
+            for f in RT_EFC + RT_PUBLIC:
+                a, b = np.array(getattr(d, f)), np.array(getattr(d2, f))
+                if a.shape != b.shape or not np.allclose(a, b, rtol=0, atol=1e-12):
+                    bad.append(f)
+        out["checks"].append({"kind": "put_get_roundtrip", "model": name, "what": "nv=%d jacobian=%s mj_isSparse=%d nl=%d nefc=%d nJ=%d" %
+                              (m.nv, jac, int(mujoco.mj_isSparse(m)), d.nl, d.nefc, d.nJ), "diff": 0.0 if not bad else float("inf"), "where": ",".join(bad[:8]),
+                              "tol": 0.0, "ok": not bad, "mjcf": xml if nv <= 3 else "chain of %d limited hinge bodies: %s" % (nv, xml[:400]),
+                              "state": {"qpos": "0.3 + 0.001 k", "qvel": "0.01 (k+1)"}, "nontrivial": True})
+
+
 def roundtrip_known(out):
     """fixed replays of KNOWN findings C44-F1 / C44-F2: get_data rebuilds the active sets from heuristics (rows with an all-zero Jacobian
     are taken for padding; contacts with dist > 0 are taken for inactive even inside the margin).  Each replay reports whether the loss is
@@ -344,8 +405,10 @@ def mode_oracle(req):
     rng = np.random.default_rng(req["seed"])
     out = {"wheel_version": mujoco.__version__, "checks": [], "notes": []}
     roundtrip_corpus(out, req.get("quick", False))
+    roundtrip_sizes(out, req.get("quick", False))
     try:
         roundtrip_known(out)
+        known_counts(out)
     except Exception as e:
         out["notes"].append("known-finding replays failed: %s" % str(e)[:160])
 
